@@ -295,30 +295,42 @@ class World(EventDispatcher):
             f'Entity ID must be hashble, found {entity}, which is not')
 
         if immediate:
-            for component_type, component in self._entities[entity].items():
-                self._components[component_type].discard(entity)
+            # Components are detached one at a time (as in
+            # _clear_dead_entities), so that an exception raised by a
+            # callback leaves nothing half done.
+            components = self._entities[entity]
+            try:
+                while components:
+                    component_type = next(iter(components))
+                    component = components.pop(component_type)
 
-                if not self._components[component_type]:
-                    del self._components[component_type]
+                    self._components[component_type].discard(entity)
 
-                # Event handling, code replication from
-                # _clear_dead_entities
-                if (hasattr(component, '__events__')
-                        and ON_REMOVE_EVENT_NAME in component.__events__):
-                    if self._dispatch_enabled:
-                        getattr(component,
+                    if not self._components[component_type]:
+                        del self._components[component_type]
+
+                    # Event handling, code replication from
+                    # _clear_dead_entities
+                    if (hasattr(component, '__events__')
+                            and ON_REMOVE_EVENT_NAME in component.__events__):
+                        if self._dispatch_enabled:
+                            getattr(
+                                component,
                                 component.__events__[ON_REMOVE_EVENT_NAME])(
                                     entity, self)
-                    else:
-                        self.dispatch(ON_SINGLE_DISPATCH_EVENT_NAME,
-                                      ON_REMOVE_EVENT_NAME,
-                                      component, entity, self)
+                        else:
+                            self.dispatch(ON_SINGLE_DISPATCH_EVENT_NAME,
+                                          ON_REMOVE_EVENT_NAME,
+                                          component, entity, self)
 
-                if hasattr(component, '__events__'):
-                    self.remove_handler(component)
-
-            del self._entities[entity]
-            self._dead_entities.discard(entity)
+                    if hasattr(component, '__events__'):
+                        self.remove_handler(component)
+            finally:
+                # An entity that owns nothing does not exist
+                if (not components
+                        and self._entities.get(entity) is components):
+                    del self._entities[entity]
+                    self._dead_entities.discard(entity)
 
         else:
             self._dead_entities.add(entity)
